@@ -21,7 +21,8 @@ ID = 'C06'
 LEVEL = 'fault_enumeration'
 RULE = ('each evaluation = one (world, operation, fault site, errno) run: worlds are consistent generated trees '
         '(some with one unreadable listed or stray object), operations are library verify (strict and '
-        'keep-going), CLI verify, library update scan+save, CLI update and CLI create; fault sites are ALL '
+        'keep-going), CLI verify, library update scan+save, CLI update and CLI create, CLI verify/update started on a '
+        'sub-directory that has its own Manifest (discovery walks up through it); fault sites are ALL '
         'open/os.open/stat/fstat/scandir/scandir-iteration/read calls of the recorded fault-free trace '
         '(exhaustive per world and operation), errnos drawn without replacement from the list (all of '
         'them in the thorough tier); non-trivial = the fault fired; distinct = distinct (event-log digest)')
@@ -33,7 +34,8 @@ ASSUMPTIONS = ['faults are injected at Python-level calls; DirEntry.is_dir() and
 ERRNOS = ['EACCES', 'EPERM', 'EIO', 'ENOMEM', 'ELOOP', 'ENOTDIR', 'EMFILE', 'ENFILE',
           'ENAMETOOLONG', 'EBUSY', 'ESTALE', 'EOVERFLOW']
 SITE_KINDS = ('open', 'os.open', 'stat', 'lstat', 'fstat', 'scandir', 'scandir.next', 'read')
-OPS = ['verify', 'verify', 'verify-kg', 'cli-verify', 'update', 'cli-update', 'cli-create', 'verify-sub']
+OPS = ['verify', 'verify', 'verify-kg', 'cli-verify', 'update', 'cli-update', 'cli-create', 'verify-sub',
+       'cli-verify-sub', 'cli-verify-sub', 'cli-update-sub']
 
 
 def generate(rng, tier, idx):
@@ -46,9 +48,18 @@ def generate(rng, tier, idx):
     if op == 'verify-sub':
         subs = [d for d in info['view_dirs'] if d and not any(c.startswith('.') for c in d.split('/'))]
         sc['sub'] = rng.choice(subs) if subs else ''
+    if op in ('cli-verify-sub', 'cli-update-sub'):
+        # started on a sub-directory that has a Manifest of its own: discovery walks upwards through it to the real
+        # top-level Manifest, and every open on that way is a fault site
+        own = sorted(set(os.path.dirname(m['p']) for m in g['manifests']
+                         if os.path.dirname(m['p']) and not any(c.startswith('.') for c in m['p'].split('/'))))
+        if own:
+            sc['sub'] = rng.choice(own)
+        else:
+            op = sc['op'] = 'cli-verify' if op == 'cli-verify-sub' else 'cli-update'
     if op == 'cli-create':
         sc['manifests'] = []
-    if op in ('update', 'cli-update'):
+    if op in ('update', 'cli-update', 'cli-update-sub'):
         # give the update something to do
         sc['muts'] = GT.gen_mutations(rng, info, rng.choice([0, 1, 2]), allow_manifest=False, allow_retype=False)
         sc['hashes'] = rng.choice([['SHA256'], ['MD5', 'SHA1'], ['BLAKE2B', 'SHA512']])
@@ -83,6 +94,12 @@ def run_op(sc, w, seam, mismatches):
             r = call(lambda: ManifestRecursiveLoader(top).assert_directory_verifies('', fail_handler=handler))
         elif op == 'cli-verify':
             c = run_cli(['verify', w.root])
+            r = cli_to_r(c)
+        elif op == 'cli-verify-sub':
+            c = run_cli(['verify', os.path.join(w.root, sc['sub'])])
+            r = cli_to_r(c)
+        elif op == 'cli-update-sub':
+            c = run_cli(['update', '-H', ' '.join(sc.get('hashes', ['SHA256'])), os.path.join(w.root, sc['sub'])])
             r = cli_to_r(c)
         elif op == 'update':
             def upd():
@@ -143,7 +160,7 @@ def execute(sc):
     violations = []
     counters = {}
     seams = []
-    updating = sc['op'] in ('update', 'cli-update', 'cli-create')
+    updating = sc['op'] in ('update', 'cli-update', 'cli-create', 'cli-update-sub')
     # ---- fault-free reference run
     with World(sc) as w:
         build(sc, w)
